@@ -15,6 +15,6 @@ def run(v, tier, seed):
     return run_view_check(v, tier, seed, want, [viewpipe.view_results, viewpipe.header_results,
                                                 viewpipe.cursor_results, viewpipe.visit_results,
                                                 viewpipe.gen_view_results, viewpipe.gen_visit_results, viewpipe.gen_cursor_results,
-                                                viewpipe.repo_view_results, viewpipe.repo_visit_results, viewpipe.repo_cursor_results],
+                                                viewpipe.repo_view_results, viewpipe.repo_visit_results],
                           "decode, cursor-call and visit vectors whose shape extends the wire blockLength of at least one level (independently per level)",
                           "DecodeRefines/SizesAgree quantify over geometry (ext per level); replay on inflated images")
